@@ -356,7 +356,7 @@ def _reuse_ref_final(holder, fin, form):
         return c
 
     def gen():
-        for m in c():
+        for m in c():  # noqa: UP028 - a plain loop: responses and thrown exceptions are not delegated to a list iterator
             yield m
 
     return gen
@@ -467,7 +467,7 @@ def _check_reuse(t, r, k, hdepth, depth):
             for a in G.FIRST_ACTIONS if not script else G.ACTIONS:
                 s = script + (a,)
                 obs = r.run_impl(hist + (s,))
-                vs, resolved, nref = r.judge(hist, s, obs, plog)
+                vs, resolved, _nref = r.judge(hist, s, obs, plog)
                 if vs:
                     # every violation is re-executed before it is reported
                     obs2 = r.run_impl(hist + (s,))
